@@ -129,6 +129,47 @@ func c11History(t *testing.T) (h c11Hist) {
 	return h
 }
 
+// c11BigRoundTrip: n silences with k matcher sets and a comment of c bytes each, clean shutdown, fresh start.
+func c11BigRoundTrip(t *testing.T, n, k, c int) (desc string) {
+	synctest.Test(t, func(t *testing.T) {
+		fsys := vfs.NewFS()
+		vfs.Install(fsys)
+		defer vfs.Install(nil)
+		s, err := c11New(c11Path)
+		if err != nil {
+			panic(err)
+		}
+		stopc := make(chan struct{})
+		done := make(chan struct{})
+		go func() { s.Maintenance(50*time.Second, c11Path, stopc, nil); close(done) }()
+		ctx := context.Background()
+		now := time.Now()
+		for i := 0; i < n; i++ {
+			var sets []*pb.MatcherSet
+			for j := 0; j < k; j++ {
+				sets = append(sets, &pb.MatcherSet{Matchers: []*pb.Matcher{{Type: pb.Matcher_EQUAL, Name: "job", Pattern: fmt.Sprintf("j%d-%d", i, j)}}})
+			}
+			sil := &pb.Silence{MatcherSets: sets, StartsAt: ts(now), EndsAt: ts(now.Add(30 * time.Minute)), Comment: strings.Repeat("c", c), CreatedBy: "v"}
+			if err := s.Set(ctx, sil); err != nil {
+				panic(err)
+			}
+		}
+		time.Sleep(time.Second)
+		close(stopc)
+		<-done
+		want := c11Dump(s)
+		s2, err := c11New(c11Path)
+		if err != nil {
+			desc = "the next start refuses the snapshot this process wrote: " + err.Error()
+			return
+		}
+		if got := c11Dump(s2); got != want {
+			desc = fmt.Sprintf("the next start loads a different store (%d vs %d bytes of dump)", len(got), len(want))
+		}
+	})
+	return desc
+}
+
 // c11Load runs the real loader on an image; returns the loaded dump.
 func c11Load(files map[string][]byte) (dump string, err error, pan any) {
 	fsys := vfs.NewFS()
@@ -336,9 +377,17 @@ func TestVerifC11Silences(t *testing.T) {
 				R.Violate("legacy-snapshot-not-upgraded", fmt.Sprint(sil), map[string]any{"rerun": true, "part": "silences-loader"})
 			}
 		}
+		// store contents of every size: a silence with 1..2000 matcher sets / a comment of up to 300 KB (no size limit is
+		// configured by default), and 1..3000 silences, through the real shutdown snapshot and a fresh start
+		for _, c := range [][3]int{{1, 1, 10}, {1, 50, 1000}, {1, 2000, 10}, {1, 1, 300000}, {3000, 1, 20}, {200, 3, 2000}} {
+			R.Executions++
+			if d := c11BigRoundTrip(t, c[0], c[1], c[2]); d != "" {
+				R.Violate("large-store-does-not-survive-restart", fmt.Sprintf("%d silences x %d matcher sets x %d-byte comment: %s", c[0], c[1], c[2], d), map[string]any{"rerun": true, "part": "silences-loader", "case": c})
+			}
+		}
 		R.Transitions = R.Executions
 		R.Exhaustive = true
-		R.Bound = fmt.Sprintf("every byte prefix of a valid %d-byte snapshot; every byte replaced by 0x00 / 0xff / its complement; legacy record shape; full round trip", len(snap))
+		R.Bound = fmt.Sprintf("every byte prefix of a valid %d-byte snapshot; every byte replaced by 0x00 / 0xff / its complement; legacy record shape; full round trip; stores of up to 3000 silences / records of up to 300 KB through snapshot and restart", len(snap))
 		R.Sample(map[string]any{"snapshot_bytes": len(snap)})
 		R.Write()
 	}
